@@ -3,7 +3,8 @@
 Writes `confirmed_by_me` into seeded/<seed-name>/meta.json from a tools/mut_eval.sh log (suite, demo results)."""
 import json, re, sys
 name, log, checks, text = sys.argv[1:5]
-f = f"/verif/seeded/{name}/meta.json"
+import os
+f = os.path.join(os.path.dirname(os.path.abspath(__file__)), "..", "seeded", name, "meta.json")
 d = json.load(open(f))
 lg = open(log).read()
 failed = [l for l in lg.split("\n") if l.startswith("FAILED")]
